@@ -182,8 +182,11 @@ def check_register_crc(ctx, clsname, mod, n, poly, steps_expected):
                                    vs.describe(want[bad[0]])[:160] if bad else '-'))
         found.setdefault(k, []).append(a)
         # clear has priority over every step
+        # (either the step is excluded by the clear condition -- If(clear)/Elif(step) -- or the clear is a later
+        #  assignment with nothing but its own condition, which wins under last-assignment-wins)
         catoms = q.atoms(clears[0]) if clears else set()
-        ok = bool(catoms) and all((x, not p) in q.atoms(a) for x, p in catoms)
+        ok = bool(catoms) and (all((x, not p) in q.atoms(a) for x, p in catoms) or
+                               (clears[0].order > a.order and clears[0].state == a.state and clears[0].domain == a.domain))
         ctx.ob('C30.clear-priority', gkey, ok, a.loc, 'the update must be excluded by the clear condition')
     have = sorted(k for k, v in found.items() for _ in v)
     ctx.ob('C30.steps-present', clsname + '.variants', have == sorted(steps_expected), None,
@@ -191,8 +194,31 @@ def check_register_crc(ctx, clsname, mod, n, poly, steps_expected):
     return ir, found
 
 
+def check_restart_sites(ctx):
+    """The USB2 data CRC16 unit is SHARED (USBDataPacketCRC.add_interface OR-joins every user's `start`, and start wins
+    over a data byte): a user may restart it only before the first payload byte of a packet, i.e. in the state its FSM
+    enters from idle (the PID state).  A restart anywhere later -- for instance when ONE user gives up on a long packet --
+    clears the CRC under every other user that is still receiving the same packet."""
+    for cls_ in ('USBDataPacketReceiver', 'USBDataPacketDeserializer'):
+        ir_ = ctx.ir(cls_, 'usb2.packet')
+        fsm_ = ctx.the_fsm(ir_)
+        pid_states = {e.dst for e in fsm_.out_edges(fsm_.init) if e.dst != fsm_.init}
+        sites = q.raises(ir_, 'self.data_crc.start')
+        ctx.need(sites, '%s restarts its CRC somewhere' % cls_)
+        def in_pid(a):
+            if q.state_of(a) in pid_states:
+                return True
+            # written at module level but qualified with fsm.ongoing(<PID state>)
+            return any(p and x in ('ongoing(%s:%s)' % (fsm_.id, st_) for st_ in pid_states) for x, p in q.atoms(a))
+        bad = [a for a in sites if not in_pid(a)]
+        ctx.ob('C30.crc16-restart-site', cls_ + '.data_crc.start', not bad, (bad[0] if bad else sites[0]).loc,
+               'the shared CRC16 may be restarted only in the state entered from idle (%s), before the first payload byte: %s' % (
+                   sorted(pid_states), [q.fmt(a) for a in bad]))
+
+
 def run(ctx):
     validate_reference(ctx)
+    check_restart_sites(ctx)
     # ---- CRC5 functions
     ir2 = ctx.ir('USBTokenDetector', 'usb2.packet')
     ip = ir2.interp
